@@ -16,10 +16,10 @@ CLAIMED = {
     "C04": (K + "Unit-level crash freedom in release semantics for the input-facing units that could be encoded (lane checks, FEE ids, RDH validators, chunking, ALPIDE decoder step, truncation). It is NOT a statement about the process: threads, signals, stdout and stave-mode word processing are outside.", "DESIGN.md §2 C04, §7.2(6)"),
     "C07": (K + "Composition of solver-decided facts: true packet offset and bytes from the scanner step, chunk i = slice at i*slot, every report of a validator step carries offset + 64 + index*slot and quotes exactly the word's bytes, offset formulas for all indices.", "DESIGN.md §2 C07"),
     "C08": (K + "Header re-serialisation is the identity for all 2^512 headers; the scanner step delivers exactly the matching packets' bytes; match predicates for all values. The writer's buffer/flush logic (best-effort harness exhausts memory), files, stdout and threads are outside.", "DESIGN.md §2 C08"),
-    "C09": (K + "The payload state machine is bisimilar to the documented diagram over all word sequences of length <= 8 from the initial state (all implementation states and edges covered) and for one step from every reachable state; illegal identifiers are reported at the word in every state class.", "DESIGN.md §2 C09"),
+    "C09": (K + "The payload state machine is bisimilar to the documented diagram over all word sequences of length <= 12 (thorough: 20) from the initial state (all implementation states and edges covered) and for one step from every reachable state; illegal identifiers are reported at the word in every state class.", "DESIGN.md §2 C09"),
     "C10": (K + "RDH sanity verdict == documented rules for all 2^512 headers (three configurations); running-check verdict == documented automaton for all 3-header histories from an HBF start and one step from an arbitrary checker state (induction over histories).", "DESIGN.md §2 C10"),
     "C11": (K + "All 2^80 values of each status word and all data-word ids x lane masks: the implementation's sanity verdict equals the documented rule. The kernels are decided over their whole input domain; the level stays 'other' because the engine is a bounded model checker, not a proof assistant.", "DESIGN.md §2 C11"),
-    "C12": (K + "Chunking of every payload of length <= 40 bytes (arbitrary contents) equals the documented cutting, chunks are the slices at i*slot; over-long padding is reported once, skipped and resets the state. Longer payloads are outside (thorough: 64).", "DESIGN.md §2 C12"),
+    "C12": (K + "Chunking of every payload of length <= 64 bytes (arbitrary contents) equals the documented cutting, chunks are the slices at i*slot; over-long padding is reported once, skipped and resets the state. Longer payloads are outside (thorough: 100).", "DESIGN.md §2 C12"),
     "C13": (K + "ALPIDE byte classification for all bytes and one decoder step from an arbitrary decoder state equal a reference that never looks at hit bytes (=> hit-content independence of the decoded chips, flags and counters); lane-count / inner-grouping verdicts. Bunch-counter comparisons (HashMap-based) are outside.", "DESIGN.md §2 C13"),
     "C14": (K + "Per component: the collector's totals are the sums of the messages and the scanner's messages equal the ground truth of the visited packets (one scanner step). Collection inside the analysis thread, the report and the file are outside.", "DESIGN.md §2 C14"),
     "C15": (K + "Drift-detection half only: a collector differing from the reference in any ONE collected statistic (each StatType message, each counted trigger bit, ALPIDE flags) is rejected by validate_other_stats in both directions, identical collectors are accepted. JSON/TOML writing and parsing (the round-trip half) are outside.", "DESIGN.md §2 C15"),
